@@ -258,4 +258,56 @@ theorem metaLoop_header (kvs : List (Str × List Str)) (hok : kvs.all entryOK = 
       rw [hk']
       simp
 
+/-! ### comments without a metadata header -/
+
+/-- the scan of `meta_preprocessor` on a first line that is neither blank, nor a `---`/`...`
+    line, nor a `key:` line, while no key has been seen yet: the scan ends at once and the line
+    is pushed back — also when the line looks like a continuation line (four or more blanks) -/
+theorem metaLoop_first_not_meta (l : Str) (rest : List Str) (md : MetaDict)
+    (h1 : isBlank l = false) (h2 : metaEndRe l = false) (h3 : metaRe l = none) :
+    metaLoop (l :: rest) none md = (md, l :: rest) := by
+  cases hm : metaMoreRe l <;> simp [metaLoop, h1, h2, h3, hm]
+
+theorem metaSplit_first_not_meta (l : Str) (rest : List Str)
+    (h1 : isBlank l = false) (h2 : metaEndRe l = false) (h3 : metaRe l = none) :
+    metaSplit (l :: rest) = ([], l :: rest) := by
+  have hb : beginRe l = false := by
+    simp only [metaEndRe, Bool.or_eq_false_iff] at h2; exact h2.1
+  simp [metaSplit, hb, metaLoop_first_not_meta l rest [] h1 h2 h3]
+
+/-- a line indented by four or more blanks: not blank, not an end marker, not a `key:` line -/
+theorem wide_line (n : Nat) (hn : 4 ≤ n) (c : Char) (cs : Str) (hc : isSpace c = false) :
+    isBlank (List.replicate n ' ' ++ c :: cs) = false ∧ metaEndRe (List.replicate n ' ' ++ c :: cs) = false ∧
+      metaRe (List.replicate n ' ' ++ c :: cs) = none := by
+  have hne : (c == ' ') = false := by
+    cases hce : c == ' ' with
+    | false => rfl
+    | true => simp at hce; subst hce; simp [isSpace] at hc
+  refine ⟨?_, ?_, ?_⟩
+  · simp [isBlank, hc]
+  · obtain ⟨m, rfl⟩ : ∃ m, n = m + 1 := ⟨n - 1, by omega⟩
+    simp [metaEndRe, startsWith, List.replicate_succ]
+  · have tw : (List.replicate n ' ' ++ c :: cs).takeWhile (· == ' ') = List.replicate n ' ' := by
+      rw [List.takeWhile_append_of_pos (by simp)]
+      simp [List.takeWhile, hne]
+    unfold metaRe
+    simp only [tw, List.length_replicate]
+    have : n > 3 := by omega
+    simp [this]
+
+/-- `read_metadata` (one-line rule included) on a comment whose first line is not metadata -/
+theorem readMetadata_first_not_meta (tb : Bool) (fields : List Str) (l : Str) (rest : List Str)
+    (h1 : isBlank l = false) (h2 : metaEndRe l = false) (h3 : metaRe l = none) :
+    readMetadata tb fields (l :: rest) = ([], l :: rest) := by
+  have hs := metaSplit_first_not_meta l rest h1 h2 h3
+  have hb0 : isBlank ([] : Str) = true := rfl
+  have hs' : metaSplit ([] :: l :: rest) = ([], l :: rest) := by
+    simp [metaSplit, beginRe, startsWith, metaLoop, hb0]
+  simp only [readMetadata, readMetaFix]
+  by_cases hc : isOneLine tb (l :: rest) = true ∧ ':' ∈ l
+  · by_cases hf : lower (strip (l.takeWhile (· != ':'))) ∈ fields
+    · simp [hc, hf, hs]
+    · simp [hc, hf, hs']
+  · simp [hc, hs]
+
 end Ford
